@@ -2,11 +2,26 @@
 # Harness harness/drv_kll.cpp (kll_sketch<int64_t>, <double>, <std::string, std::greater>) vs. model coq/KllDefs.v
 # (extract/Extract_kll.v), coins routed through the DATASKETCHES_VERIF hook and replayed by the model.
 #
-# Mutations confirmed caught (scratch worktree, VERIF_REPO): see the list at the end of this file.
+# Mutations confirmed caught (scratch worktree /tmp/wt_kll with fixes/07_kll_iterator.patch applied, VERIF_REPO, VERIF_SEED=1;
+# "unit ok" = kll_test still passes with the mutation):
+#  C08 (./check C08, each reported as VIOLATION):
+#   m1 randomly_halve_down: offset = random_bit() & 0 (coin drawn, parity fixed)             -> kll_rank_biased            (unit ok)
+#   m2 randomly_halve_up: offset = random_bit() | 1 (always the same parity)                 -> kll_rank_biased            (unit ok)
+#   m3 randomly_halve_down: a second coin is drawn when the first is 1                       -> kll_flip_count_depends_on_outcome (unit ok)
+#   m5 merge_sorted_arrays (in place): comparator arguments swapped                         -> kll_rank_biased
+#   m6 general_compress: current_item_count not decreased after a compaction                -> kll_rank_biased
+#   m7 compress_while_updating: odd leftover not skipped (adj_beg = raw_beg)                  -> kll_rank_biased
+#   m8 merge: merge_higher_levels skipped for a 2-level operand (>= 2 -> > 2)                -> flip count differs / refused
+#   m9 find_level_to_compact: pop > cap instead of pop >= cap                                 -> flip count differs from the history
+#   (m10 general_compress: halve_up also when the level above holds 1 item - leaves the level unsorted but unbiased and is
+#    not reached by the short C08 histories: it is a C07 mutation, see below)
+#  harmless rewrites tolerated by C08 and C07 (exit 0): h1 n_++ / is_level_zero_sorted_ = false swapped; h2 levels_ vector
+#   grown by 4 more entries; h3 std::stable_sort instead of std::sort; h4 randomly_halve_down written as an index loop.
+#  C07 (./check C07): see the list at the end of this file.
 import struct
 
 READY_C07 = True
-READY_C08 = False
+READY_C08 = True
 COQ_PROPS_C07 = ['Properties_C07_kll']
 COQ_PROPS_C08 = ['Properties_C08_kll']
 
@@ -497,7 +512,7 @@ def oracle_c08(case, irecs, mrecs):
     if not starts or len(irecs) < len(ops):
         return fails
     blocks = [(starts[b], starts[b + 1] if b + 1 < len(starts) else len(ops)) for b in range(len(starts))]
-    shape = None; seqs = set(); sums = {}; truth = {}; m = None
+    shape = None; seqs = set(); sums = {}; truth = {}; m = None; counts = []
     for (a, b) in blocks:
         body = [op for op in ops[a:b] if op[0] != 98]
         if shape is None:
@@ -511,11 +526,11 @@ def oracle_c08(case, irecs, mrecs):
         left = [irecs[i].get('F') for i in range(a, b) if ops[i][0] == 97]
         if m is None:
             m = len(scripted)
-        if len(drawn) != m or len(scripted) != m or drawn != scripted or (left and left[0] != [0]):
-            fails.append(dict(sig='kll_flip_count_depends_on_outcome',
-                              what='coin outcome %s: %d coins drawn, %d expected (the number of flips must not depend on the outcomes)' % (scripted, len(drawn), m),
-                              op_index=a))
+        if len(scripted) != m:
             return fails
+        counts.append((len(drawn), scripted, a))
+        if len(drawn) != m or drawn != scripted or (left and left[0] != [0]):
+            continue                          # judged below, once the counts of all outcomes are known
         seqs.add(tuple(drawn))
         for i in range(a, b):
             if ops[i][0] == 6:
@@ -524,6 +539,17 @@ def oracle_c08(case, irecs, mrecs):
                     return fails
                 key = (i - a)
                 si, se = sums.get(key, (0, 0)); sums[key] = (si + R[0], se + R[1]); truth[key] = (S[0], S[1], ops[i][2])
+    bad = [(c, sc, a) for (c, sc, a) in counts if c != m]
+    if bad:
+        c, sc, a = bad[0]
+        if len(set(c for (c, _, _) in counts)) > 1:
+            fails.append(dict(sig='kll_flip_count_depends_on_outcome',
+                              what='coin outcome %s: %d coins drawn, other outcomes of the same history draw %s (the number of flips must not depend on the outcomes)' %
+                                   (sc, c, sorted(set(x for (x, _, _) in counts) - {c})), op_index=a))
+        else:
+            fails.append(dict(sig='kll_flip_count_differs_from_history',
+                              what='every outcome draws %d coins, the history determines %d (size-only simulation of the documented compaction schedule)' % (c, m), op_index=a))
+        return fails
     if m is None or len(seqs) != (1 << m) or len(blocks) != (1 << m):
         return fails                          # incomplete enumeration: nothing to conclude
     for key, (si, se) in sorted(sums.items()):
@@ -536,3 +562,28 @@ def oracle_c08(case, irecs, mrecs):
 
 FAMILIES_C07 = [dict(name='kll', harness='drv_kll.cpp', extract='Extract_kll.v', model='model_kll', gen=gen_c07, oracle=oracle_c07)]
 FAMILIES_C08 = [dict(name='kll', harness='drv_kll.cpp', extract='Extract_kll.v', model='model_kll', gen=gen_c08, oracle=oracle_c08)]
+
+# ---------------------------------------------------------------------------------------------------------------------
+# C07 mutations confirmed caught (scratch worktree /tmp/wt_kll with fixes/07_kll_iterator.patch applied, ./check C07, VERIF_SEED=1):
+#   m10 general_compress: halve_up also when the level above holds one item          -> kll_view_order (sorted view not ordered)
+#   i1  const_iterator::operator++: weight doubled once instead of once per level     -> kll_iterator_weights
+#   i2  merge: comparison for max_item_ with swapped arguments                        -> kll_minmax
+#   i3  get_sorted_view: weight 1 + level instead of 1 << level                       -> kll_view_total
+#   i4  the repaired constructor skipping empty levels WITHOUT doubling the weight    -> kll_iterator_weights
+#   i6  merge: min_k_ not lowered to the operand's min_k                              -> correspondence broken (min_k recovered from
+#       get_normalized_rank_error differs from the model)
+#   the unrepaired tree itself (level 0 empty after a merge)                           -> kll_iterator_weights_after_merge
+#  harmless rewrites tolerated: h1 (two independent statements swapped), h3 (std::stable_sort).
+# ---------------------------------------------------------------------------------------------------------------------
+# What is PROVED for this family (for the maintainer's MANIFEST texts):
+#  C07  Properties_C07_kll.v (25 theorems): for every state reachable by updates/merges/queries under every coin outcome -
+#       weight conservation, n = #accepted, exact min/max, sorted levels, retained sub-multiset of the inputs, space bound,
+#       full sketch always compacts, the iterator OF THE CODE (repaired constructor) = retained items with weights 2^level summing
+#       to n, sorted-view/rank/quantile/CDF/PMF coherence, invalid queries refused, exactness while uncompacted.
+#       Regression_C07_kll.v: the constructor as coded before fixes/07_kll_iterator.patch is refuted.
+#  C08  Properties_C08_kll.v (11 theorems): for EVERY script of the line protocol (any k, updates, merges, copies, queries), every
+#       register and query point: sum over all outcomes of the rank numerator = 2^m * true rank, the coin tree is uniform (every run
+#       draws exactly m coins; m depends only on the shapes), the explicit enumeration form, every outcome agrees with the
+#       specification and is reachable, operation 6 reports exactly the summed quantities, the extracted runner follows one path.
+#       Compared by the correspondence runs only: that the C++ draws its coins in the order/number of the model (E lines), exhaustive
+#       enumeration of <= 8 (quick) / <= 13 (thorough) coins on the implementation.  Not claimed: the statistical error clause.
